@@ -239,6 +239,10 @@ def run_cell(cell):
     return res
 
 
+def gate_any(case):
+    return case.get("cfg", {}).get("n_jobs", 1) != 1
+
+
 def replay_case(case):
     vs, _ = run_seq(case["cfg"], case["seq"])
     return [{"key": k, "what": w} for k, w in vs]
